@@ -1,11 +1,11 @@
 package main
 
 import (
-	"sort"
 	"fmt"
 	"go/constant"
 	"go/token"
 	"go/types"
+	"sort"
 	"strings"
 
 	"golang.org/x/tools/go/ssa"
@@ -50,7 +50,7 @@ func ruleLockset(c *Check, p *Program, rule string) {
 	// the ordering goroutine: whatever the go statement(s) of Blocks.initW start
 	ordering := map[*ssa.Function]bool{}
 	if iw := p.Func("internal/lz4stream", "Blocks.initW"); iw != nil {
-		for _, f := range withAnon(iw) {
+		for _, f := range splitFns(iw) {
 			allInstrs(f, func(in ssa.Instruction) {
 				if g, ok := in.(*ssa.Go); ok {
 					if t := goTarget(g); t != nil {
@@ -168,6 +168,21 @@ func ruleLockset(c *Check, p *Program, rule string) {
 						}
 						continue
 					}
+					if _, isDefer := ci.(*ssa.Defer); isDefer {
+						// a deferred helper runs where the function returns
+						for _, b := range ci.Parent().Blocks {
+							for _, j := range b.Instrs {
+								if _, isRD := j.(*ssa.RunDefers); isRD {
+									okc, h := protectedAt(ci.Parent(), j, depth-1)
+									if !okc {
+										all = false
+									}
+									how = h
+								}
+							}
+						}
+						continue
+					}
 					okc, h := protectedAt(ci.Parent(), ci, depth-1)
 					if !okc {
 						all = false
@@ -177,6 +192,53 @@ func ruleLockset(c *Check, p *Program, rule string) {
 				if all {
 					return true, "helper called only from protected sites: " + how
 				}
+			}
+		}
+		// (5) a function literal handed to a wrapper that only calls it, with the lock held
+		if depth > 0 && fn.Parent() != nil {
+			n, all := 0, true
+			allInstrs(fn.Parent(), func(in ssa.Instruction) {
+				mc, isMC := in.(*ssa.MakeClosure)
+				if !isMC || mc.Fn != ssa.Value(fn) {
+					return
+				}
+				for _, r := range *mc.Referrers() {
+					ci, isCall := r.(*ssa.Call)
+					g := (*ssa.Function)(nil)
+					if isCall {
+						g = staticCallee(ci)
+					}
+					idx := -1
+					if g != nil && inModule(g) && len(g.Blocks) > 0 {
+						args := ci.Call.Args
+						off := len(g.Params) - len(args)
+						for i, a := range args {
+							if a == ssa.Value(mc) && i+off >= 0 {
+								idx = i + off
+							}
+						}
+					}
+					if idx < 0 {
+						all = false
+						continue
+					}
+					n++
+					for _, pr := range *g.Params[idx].Referrers() {
+						pc, isPC := pr.(*ssa.Call)
+						if !isPC || pc.Call.Value != ssa.Value(g.Params[idx]) {
+							if _, isDbg := pr.(*ssa.DebugRef); !isDbg {
+								all = false
+							}
+							continue
+						}
+						if okc, _ := protectedAt(g, pc, depth-1); !okc {
+							all = false
+						}
+					}
+				}
+			})
+			if n > 0 && all {
+				return true, "function literal run only by a wrapper that holds Blocks.mu around the call"
 			}
 		}
 		return false, "access to Blocks.err in " + shortFn(fn) + " without holding Blocks.mu (concurrent workers, the reader goroutine and the consumer all use the latch)"
@@ -477,8 +539,11 @@ func ruleReleaseAfterUse(c *Check, p *Program, rule string) {
 				if calleeIs(ci, pkgBlock, "Put") {
 					okSafe := false
 					for _, l := range guardsOf(ci.Block()) {
-						if pr, isP := l.Cond.(*ssa.Parameter); isP && pr.Name() == "safe" && l.Val {
-							okSafe = true
+						// the ownership flag: the boolean parameter of the worker, or of Writer.write when captured
+						if pr := capturedParam(l.Cond); pr != nil && l.Val && (pr.Parent() == fn || pr.Parent() == ww) {
+							if bt, isB := pr.Type().Underlying().(*types.Basic); isB && bt.Kind() == types.Bool {
+								okSafe = true
+							}
 						}
 					}
 					c.Cond(okSafe, rule, "Writer.write.worker#put-only-if-owned", p.InstrPos(ci), "the worker returns the data buffer to the pool only when it owns it (safe)", "guarded by safe", "Put(data) is not guarded by the ownership flag: a caller's buffer could enter the pool")
@@ -899,24 +964,27 @@ func ruleLiveness(c *Check, p *Program, rule string) {
 	iw := findFn(c, p, rule, "internal/lz4stream", "Blocks.initW")
 	if iw != nil {
 		okk := false
-		allInstrs(iw, func(in ssa.Instruction) {
-			if _, ok := in.(*ssa.Go); ok {
-				// queue must be non-nil here: a make under cap(queue) != num precedes
-				mkq := false
-				allInstrs(iw, func(j ssa.Instruction) {
-					if st, ok := j.(*ssa.Store); ok && lastField(st.Addr) == "Blocks.Blocks" {
-						if _, isMk := st.Val.(*ssa.MakeChan); isMk {
-							for _, a := range atomsOfBlock(j.Block()) {
-								if a.Kind == "cmp" && strings.Contains(a.Name, "cap(") {
-									mkq = true
+		for _, piece := range splitFns(iw) {
+			piece := piece
+			allInstrs(piece, func(in ssa.Instruction) {
+				if _, ok := in.(*ssa.Go); ok {
+					// queue must be non-nil here: a make under cap(queue) != num precedes
+					mkq := false
+					allInstrs(piece, func(j ssa.Instruction) {
+						if st, ok := j.(*ssa.Store); ok && lastField(st.Addr) == "Blocks.Blocks" {
+							if _, isMk := st.Val.(*ssa.MakeChan); isMk {
+								for _, a := range atomsOfBlock(j.Block()) {
+									if a.Kind == "cmp" && strings.Contains(a.Name, "cap(") {
+										mkq = true
+									}
 								}
 							}
 						}
-					}
-				})
-				okk = mkq
-			}
-		})
+					})
+					okk = mkq
+				}
+			})
+		}
 		c.Cond(okk, rule, "Blocks.initW#queue-recreated", p.Pos(iw.Pos()), "initW allocates a queue whenever the current one does not have the requested capacity (in particular after it was dropped) before starting the ordering goroutine", "make under cap(queue) != num", "initW may start the goroutine on a nil or stale queue")
 	}
 }
@@ -1254,12 +1322,117 @@ func orderingFns(iw *ssa.Function) []*ssa.Function {
 			}
 		}
 	}
-	for _, f := range withAnon(iw) {
+	for _, f := range splitFns(iw) {
 		allInstrs(f, func(in ssa.Instruction) {
 			if g, ok := in.(*ssa.Go); ok {
 				add(goTarget(g), 2)
 			}
 		})
 	}
+	return out
+}
+
+// splitFns: the function, the unexported helpers of its package that only it
+// (or such a helper) calls, and the function literals of all of them: the
+// function as it reads after having been split into pieces.
+func splitFns(root *ssa.Function) []*ssa.Function {
+	seen := map[*ssa.Function]bool{}
+	var out []*ssa.Function
+	var add func(f *ssa.Function, depth int)
+	add = func(f *ssa.Function, depth int) {
+		if f == nil || seen[f] || len(f.Blocks) == 0 {
+			return
+		}
+		seen[f] = true
+		out = append(out, f)
+		for _, a := range f.AnonFuncs {
+			add(a, depth)
+		}
+		if depth <= 0 {
+			return
+		}
+		for _, g := range calleesOf(f) {
+			if g.Pkg != root.Pkg || !isHelper(g) {
+				continue
+			}
+			own := true
+			for _, cs := range callSitesOf(g) {
+				top := cs.Parent()
+				for top.Parent() != nil {
+					top = top.Parent()
+				}
+				if !seen[top] {
+					own = false
+				}
+			}
+			if own {
+				add(g, depth-1)
+			}
+		}
+	}
+	add(root, 2)
+	return out
+}
+
+
+// capturedParam: v is a parameter, or the load of a variable captured by a
+// function literal whose only assignment in the enclosing function is a
+// parameter of that function (a parameter used inside a closure).
+func capturedParam(v ssa.Value) *ssa.Parameter {
+	if pr, ok := v.(*ssa.Parameter); ok {
+		return pr
+	}
+	for _, src := range capturedSources(v) {
+		if pr, ok := src.(*ssa.Parameter); ok {
+			return pr
+		}
+	}
+	return nil
+}
+
+// capturedSources: for the load of a captured variable, the values stored into
+// its cell by the enclosing function (nil when v is not such a load or when the
+// function literal itself assigns the variable).
+func capturedSources(v ssa.Value) []ssa.Value {
+	ld, ok := v.(*ssa.UnOp)
+	if !ok || ld.Op != token.MUL {
+		return nil
+	}
+	fv, ok := ld.X.(*ssa.FreeVar)
+	if !ok {
+		return nil
+	}
+	fn := fv.Parent()
+	for _, r := range *fv.Referrers() {
+		if st, isS := r.(*ssa.Store); isS && st.Addr == ssa.Value(fv) {
+			return nil
+		}
+	}
+	idx := -1
+	for i, f := range fn.FreeVars {
+		if f == fv {
+			idx = i
+		}
+	}
+	if idx < 0 || fn.Parent() == nil {
+		return nil
+	}
+	var out []ssa.Value
+	allInstrs(fn.Parent(), func(in ssa.Instruction) {
+		mc, isMC := in.(*ssa.MakeClosure)
+		if !isMC || mc.Fn != ssa.Value(fn) || idx >= len(mc.Bindings) {
+			return
+		}
+		cell := mc.Bindings[idx]
+		refs := cell.Referrers()
+		if refs == nil {
+			return
+		}
+		for _, r := range *refs {
+			if st, isS := r.(*ssa.Store); isS && st.Addr == cell {
+				out = append(out, st.Val)
+			}
+		}
+	})
 	return out
 }
